@@ -106,8 +106,13 @@ def add : List String → Node → H → Except AddErr Node
       if t = "" then .error .dupSlash
       else updChild n t fun oc => add rest (oc.getD (newNode none)) h
 
+/-- split at every '/' (`cur` = reversed characters of the token being read). Never returns `[]`. -/
+def splitSlash : List Char → List Char → List String
+  | [], cur => [String.ofList cur.reverse]
+  | c :: cs, cur => if c = '/' then String.ofList cur.reverse :: splitSlash cs [] else splitSlash cs (c :: cur)
+
 /-- tokens of a Go string that starts with '/': everything after the first byte, split at '/'. -/
-def toksOf (route : String) : List String := (String.ofList (route.toList.drop 1)).splitOn "/"
+def toksOf (route : String) : List String := splitSlash (route.toList.drop 1) []
 
 def rooted (route : String) : Bool := route.toList.head? == some '/'
 
@@ -179,7 +184,7 @@ inductive Outcome where
   | handler (h : H) (params : Params)
   | notAllowed (allow : List String)     -- in `range pr.trees` order (arbitrary in Go)
   | notFound
-  deriving Repr
+  deriving Repr, DecidableEq
 
 /-- search of one method tree with the (cleaned) request path. A non-rooted path matches nothing. -/
 def searchClean (root : Node) (path : String) : Option (H × Params) :=
